@@ -880,10 +880,41 @@ class Flow:
     def place_ty(self, pl):
         """Best-effort printed type of a place (only for whole locals / simple derefs)."""
         t = self.fn.local_ty(pl[0])
+        variant = None
+        adts = self.fn.facts.adts
         for p in pl[1:]:
+            if t is None:
+                return None
             if p == "*":
-                t = re.sub(r"^&(mut )?", "", t)
+                t = re.sub(r"^&('\w+ )?(mut )?", "", t)
                 t = re.sub(r"^\*(const|mut) ", "", t)
+                m = re.match(r"^std::boxed::Box<(.*)>$", t)
+                if m:
+                    t = split_generics(t)[0]
+            elif p.startswith("@"):
+                variant = p[1:]
+            elif p.startswith("."):
+                name = p[1:]
+                head = type_head(t)
+                ga = split_generics(t)
+                if head in ("std::option::Option", "core::option::Option"):
+                    t = ga[0] if ga else None
+                elif head in ("std::result::Result", "core::result::Result"):
+                    t = (ga[1] if variant == "Err" else ga[0]) if len(ga) >= 2 else None
+                elif t.startswith("("):
+                    parts = split_generics("T<" + t[1:-1] + ">")
+                    t = parts[int(name)] if name.isdigit() and int(name) < len(parts) else None
+                elif head in adts:
+                    a = adts[head]
+                    vs = [v for v in a["variants"] if variant is None or v["name"] == variant] or a["variants"]
+                    ft = None
+                    for fld in vs[0]["fields"]:
+                        if fld["name"] == name:
+                            ft = fld["ty"]
+                    t = ft
+                else:
+                    return None
+                variant = None
             else:
                 return None
         return t
@@ -936,6 +967,39 @@ class Flow:
         for r in self.cfg.live_rets:
             out.append((r, self.origin_local(0, r, "t")))
         return out
+
+
+def type_head(t):
+    """Path of a printed type without generic arguments and reference sigils."""
+    t = t.strip()
+    t = re.sub(r"^&('\w+ )?(mut )?", "", t)
+    depth = 0
+    for i, ch in enumerate(t):
+        if ch == "<" and depth == 0 and i > 0:
+            return t[:i]
+    return t
+
+
+def split_generics(t):
+    """Top-level generic arguments of a printed type: 'A<B<C>, D>' -> ['B<C>', 'D']."""
+    i = t.find("<")
+    if i < 0 or not t.endswith(">"):
+        return []
+    inner = t[i + 1:-1]
+    out, depth, cur = [], 0, ""
+    for ch in inner:
+        if ch in "<([":
+            depth += 1
+        elif ch in ">)]":
+            depth -= 1
+        if ch == "," and depth == 0:
+            out.append(cur.strip())
+            cur = ""
+        else:
+            cur += ch
+    if cur.strip():
+        out.append(cur.strip())
+    return [x for x in out if not x.startswith("'")]
 
 
 # ---- tree utilities
